@@ -14,6 +14,7 @@ use serde::{Deserialize, Serialize};
 use std::cell::{Cell, RefCell};
 use std::future::{poll_fn, Future};
 use std::io;
+use std::net::SocketAddr;
 use std::pin::{pin, Pin};
 use std::rc::Rc;
 use std::task::Poll;
@@ -171,6 +172,24 @@ pub struct Scenario {
     pub script: Vec<(u32, LinkAct)>,
     /// let `variants` enumerate all delivery permutations of small rounds
     pub enumerate: bool,
+    /// every connection to the server host of connection 0 (without a throw-away prelude) goes to ONE listener
+    /// there: several streams of one host share their local port (only in Mode::Latency)
+    #[serde(default)]
+    pub shared_listener: bool,
+}
+
+impl Scenario {
+    fn group(&self) -> Vec<usize> {
+        if !self.shared_listener || !matches!(self.mode, Mode::Latency) || self.conns.is_empty() || self.conns[0].prelude.is_some() {
+            return vec![];
+        }
+        let g: Vec<usize> = (0..self.conns.len()).filter(|c| self.conns[*c].server == self.conns[0].server && self.conns[*c].prelude.is_none()).collect();
+        if g.len() >= 2 {
+            g
+        } else {
+            vec![]
+        }
+    }
 }
 
 pub struct C02;
@@ -419,7 +438,12 @@ fn gen_scenario(rng: &mut Rng) -> Scenario {
         b.drain = Some(*rng.pick(&[1u16, 3, 16, 256]));
         b.keep = rng.chance(1, 4);
     }
-    let sc = Scenario { cfg, guarded, hosts, conns, mode, script, enumerate: owned };
+    let shared_listener = !owned && rng.chance(1, 4);
+    if shared_listener {
+        // the requests of the whole group may wait in one accept queue
+        cfg.tcp_capacity = cfg.tcp_capacity.max(3);
+    }
+    let sc = Scenario { cfg, guarded, hosts, conns, mode, script, enumerate: owned, shared_listener };
     sc
 }
 
@@ -478,6 +502,12 @@ struct Sh {
     /// seeded latencies, no hold / partition anywhere in the script: what was sent first by `max_latency` arrives first
     plain_links: bool,
     max_latency_us: u64,
+    /// connections that share the listener of connection 0
+    group: Rc<Vec<usize>>,
+    /// streams the shared listener accepted, not yet claimed by their connection
+    pool: Rc<RefCell<Vec<(SocketAddr, TcpStream)>>>,
+    /// local address of the connecting end, once connected
+    caddr: Rc<RefCell<Vec<Option<SocketAddr>>>>,
 }
 
 impl Sh {
@@ -1152,6 +1182,51 @@ async fn run_end(sh: Sh, c: usize, side: usize, spec: EndSpec, stream: TcpStream
     }
 }
 
+/// The one listener of a group: accepts as many streams as the group has connections.
+async fn group_acceptor(sh: Sh, ipv6: bool) {
+    let l = match TcpListener::bind((wildcard(ipv6), PORT0)).await {
+        Ok(l) => l,
+        Err(e) => {
+            *sh.herr.borrow_mut() = Some(format!("shared listener: bind failed: {e}"));
+            return;
+        }
+    };
+    for _ in 0..sh.group.len() {
+        match l.accept().await {
+            Ok((s, peer)) => {
+                sh.log.ev(format!("shared listener accepted {peer}"));
+                sh.pool.borrow_mut().push((peer, s));
+            }
+            Err(e) => {
+                *sh.herr.borrow_mut() = Some(format!("shared listener: accept failed: {e}"));
+                return;
+            }
+        }
+    }
+    sh.probe("several_streams_accepted_by_one_listener");
+}
+
+/// The accepting end of a grouped connection: claims the stream whose peer is this connection's connector.
+async fn server_end_grouped(sh: Sh, c: usize, spec: ConnSpec) {
+    for _ in 0..2000 {
+        let mine = {
+            let want = sh.caddr.borrow()[c];
+            let mut pool = sh.pool.borrow_mut();
+            match want.and_then(|a| pool.iter().position(|(p, _)| *p == a)) {
+                Some(i) => Some(pool.swap_remove(i).1),
+                None => None,
+            }
+        };
+        if let Some(s) = mine {
+            return run_end(sh, c, 1, spec.s.clone(), s).await;
+        }
+        if sh.stop() {
+            return;
+        }
+        sh.sleep_ticks(1).await;
+    }
+}
+
 async fn server_end(sh: Sh, c: usize, spec: ConnSpec, ipv6: bool) {
     let ip = if spec.bind_localhost && spec.via == Via::Loopback { loopback(ipv6) } else { wildcard(ipv6) };
     let l = match TcpListener::bind((ip, PORT0 + c as u16)).await {
@@ -1190,7 +1265,7 @@ async fn server_end(sh: Sh, c: usize, spec: ConnSpec, ipv6: bool) {
 
 async fn client_end(sh: Sh, c: usize, spec: ConnSpec, ipv6: bool) {
     sh.sleep_ticks(spec.connect_delay.max(1) as u64).await;
-    let port = PORT0 + c as u16;
+    let port = if sh.group.contains(&c) { PORT0 } else { PORT0 + c as u16 };
     if let Some(p) = &spec.prelude {
         let r = match spec.via {
             Via::Remote | Via::OwnAddr => TcpStream::connect((host_ip(spec.server, ipv6), port)).await,
@@ -1227,7 +1302,10 @@ async fn client_end(sh: Sh, c: usize, spec: ConnSpec, ipv6: bool) {
         Via::Loopback => TcpStream::connect((loopback(ipv6), port)).await,
     };
     match r {
-        Ok(s) => run_end(sh, c, 0, spec.c.clone(), s).await,
+        Ok(s) => {
+            sh.caddr.borrow_mut()[c] = s.local_addr().ok();
+            run_end(sh, c, 0, spec.c.clone(), s).await
+        }
         Err(e) => {
             sh.log.ev(format!("conn {c} c connect -> Err {}", kind_name(e.kind())));
             sh.log.tag("cerr");
@@ -1239,8 +1317,13 @@ async fn client_end(sh: Sh, c: usize, spec: ConnSpec, ipv6: bool) {
 }
 
 async fn host_main(sh: Sh, host: usize, sc: Rc<Scenario>) -> turmoil::Result {
+    if sh.group.first().map(|c| sc.conns[*c].server == host).unwrap_or(false) {
+        tokio::task::spawn_local(group_acceptor(sh.clone(), sc.cfg.ipv6));
+    }
     for (c, spec) in sc.conns.iter().enumerate() {
-        if spec.server == host {
+        if spec.server == host && sh.group.contains(&c) {
+            tokio::task::spawn_local(server_end_grouped(sh.clone(), c, spec.clone()));
+        } else if spec.server == host {
             tokio::task::spawn_local(server_end(sh.clone(), c, spec.clone(), sc.cfg.ipv6));
         }
         if spec.client == host {
@@ -1275,8 +1358,18 @@ fn step_cap(sc: &Scenario) -> u32 {
     (60 + sleeps + last_script + segs * per).min(20_000) as u32
 }
 
-fn dir_of(f: &Flight, nconn: usize, pre: &[Option<u16>]) -> Option<(usize, usize)> {
+fn dir_of(f: &Flight, nconn: usize, pre: &[Option<u16>], group: &[usize], caddr: &[Option<SocketAddr>]) -> Option<(usize, usize)> {
     let (sp, dp) = (f.src.port(), f.dst.port());
+    if !group.is_empty() && (dp == PORT0 || sp == PORT0) {
+        // several connections share that port: told apart by the connecting end's address
+        if let Some(c) = group.iter().find(|c| caddr[**c] == Some(f.src) && dp == PORT0) {
+            return Some((*c, 0));
+        }
+        if let Some(c) = group.iter().find(|c| caddr[**c] == Some(f.dst) && sp == PORT0) {
+            return Some((*c, 1));
+        }
+        return None;
+    }
     if dp >= PORT0 && ((dp - PORT0) as usize) < nconn {
         let c = (dp - PORT0) as usize;
         return if pre[c] == Some(sp) { None } else { Some((c, 0)) };
@@ -1300,6 +1393,9 @@ fn execute(sc: &Scenario, keep: bool) -> (Report, RunInfo) {
         tick: sc.cfg.tick(),
         plain_links: matches!(sc.mode, Mode::Latency) && sc.script.is_empty(),
         max_latency_us: sc.cfg.max_latency_us,
+        group: Rc::new(sc.group()),
+        pool: Rc::new(RefCell::new(Vec::new())),
+        caddr: Rc::new(RefCell::new(vec![None; sc.conns.len()])),
     };
     let mut info = RunInfo::default();
     let mut faults = Counters::default();
@@ -1401,11 +1497,13 @@ fn execute(sc: &Scenario, keep: bool) -> (Report, RunInfo) {
             let after = inflight(&sim);
             let delivered = gone(&before, &after);
             let pre: Vec<Option<u16>> = sh.st.borrow().iter().map(|c| c.prelude_cport).collect();
+            let group = sh.group.clone();
+            let caddr = sh.caddr.borrow().clone();
             for f in &delivered {
                 if !matches!(f.kind, MsgKind::Data | MsgKind::Fin) {
                     continue;
                 }
-                let Some((c, d)) = dir_of(f, nconn, &pre) else { continue };
+                let Some((c, d)) = dir_of(f, nconn, &pre, &group, &caddr) else { continue };
                 let same_dir_earlier = after.iter().filter(|x| x.src == f.src && x.dst == f.dst && matches!(x.kind, MsgKind::Data | MsgKind::Fin) && x.seq < f.seq).count();
                 if same_dir_earlier > 0 {
                     probes.inc("segment_overtook");
@@ -1424,7 +1522,7 @@ fn execute(sc: &Scenario, keep: bool) -> (Report, RunInfo) {
                     for d in 0..2 {
                         let ds = &mut st[c].d[d];
                         if ds.fin_delivered && ds.fin_found_full.is_none() {
-                            let waiting = after.iter().any(|x| matches!(x.kind, MsgKind::Data) && dir_of(x, nconn, &pre) == Some((c, d)));
+                            let waiting = after.iter().any(|x| matches!(x.kind, MsgKind::Data) && dir_of(x, nconn, &pre, &group, &caddr) == Some((c, d)));
                             if !waiting {
                                 let unpulled = ds.seg_ends.len().saturating_sub(pulled_before[c][d]);
                                 let full = unpulled >= tcp_cap;
@@ -1887,7 +1985,7 @@ mod tests {
 
     fn base(cap: usize, c: EndSpec, s: EndSpec) -> Scenario {
         let cfg = SimCfg { tcp_capacity: cap, min_latency_us: 1000, max_latency_us: 1000, ..SimCfg::default() };
-        Scenario { cfg, guarded: false, hosts: 2, conns: vec![ConnSpec { prelude: None, client: 0, server: 1, via: Via::Remote, bind_localhost: false, connect_delay: 1, c, s }], mode: Mode::Latency, script: vec![], enumerate: false }
+        Scenario { cfg, guarded: false, hosts: 2, conns: vec![ConnSpec { prelude: None, client: 0, server: 1, via: Via::Remote, bind_localhost: false, connect_delay: 1, c, s }], mode: Mode::Latency, script: vec![], enumerate: false, shared_listener: false }
     }
 
     /// the oracle accepts the plain ping-pong of /repo's own tests
